@@ -643,6 +643,28 @@ def rule_i(ctx, fa, ta, acc_f, acc_t, ls):
     ctx.floor(R, 2)
 
 
+def rule_k(ctx, ls):
+    R = "C08.k"
+    ctx.rule(R, "every call of linear_solve returns an array of its own: the solution that is returned neither is an attribute of the solver "
+             "object nor aliases one (a workspace kept on the object and handed out again makes the solution of system k change when system "
+             "k+1 is solved -- the Newton / Bregman loops keep the previous iterate)")
+    from ..effects import Effects
+
+    E = Effects(ctx.model)
+    ctx.instance(R)
+    amap = {a: b for a, b in E.alias.get(ls, {}).items() if not a.startswith("self.")}
+    bad = []
+    for r in ast.walk(ls.node):
+        if isinstance(r, ast.Return) and r.value is not None:
+            vals = r.value.elts[:1] if isinstance(r.value, (ast.Tuple, ast.List)) and r.value.elts else [r.value]
+            for v in vals:
+                if ls.params and ls.params[0] in E.roots(v, ls, amap):
+                    bad.append((r, norm(v)[:40]))
+    ctx.ob(R, ls.qname, "the returned solution is not shared with the solver object", not bad,
+           "; ".join(f"`{t}` may alias an attribute of self" for _, t in bad[:2]) + " -- the array handed to the caller is overwritten by the next solve", bad[0][0] if bad else ls.node, evidence=True)
+    ctx.floor(R, 1)
+
+
 def run(ctx):
     from .common import rule_abs_tolerance
     rule_abs_tolerance(ctx, "C08.j", [f for f in ctx.model.cls(WAS, BASE).methods.values()] + [f for k in ctx.model.mod("darsia.utils.linalg").classes.values() for f in k.methods.values()], "all formulations must agree for every positive weighting and right-hand side")
@@ -659,6 +681,7 @@ def run(ctx):
     rule_g(ctx)
     rule_h(ctx)
     rule_i(ctx, fa, ta, acc_f, acc_t, ls)
+    rule_k(ctx, ls)
     # callers of linear_solve: a reused factorisation must belong to the matrix being solved (C04.g)
     from . import c04
     from .common import shared
